@@ -16,7 +16,7 @@ A = len(ALPHA)
 RULE = ("exhaustive enumeration of all strings over the 14-symbol critical alphabet "
         "{\\ n N ; , : \" % 2 C CR LF SP a} up to a length bound on three paths (vText codec with str and "
         "bytes input; add(name, s) -> to_ical -> from_ical for SUMMARY/DESCRIPTION/X-; CATEGORIES lists of "
-        "1-3 items, codec and component path) plus a fixed sweep of 18 layer-special characters (BOM, Unicode line separators, controls) at start/middle/end on all paths, plus Hypothesis long Unicode strings (delimiter-biased, special characters leading). "
+        "1-3 items, codec and component path) plus a fixed sweep of 27 layer-special characters and strings (BOM, Unicode line separators, controls, non-NFC sequences) at start/middle/end on all paths, plus Hypothesis long Unicode strings (delimiter-biased, special characters leading). "
         "Oracle: decoded == s after the two documented normalisations (CRLF->LF, backslash-N->LF, either "
         "order); independent scanner over the encoded form (no LF, every ; and , preceded by an odd number "
         "of backslashes). Non-trivial: the string (or an item) contains one of \\ ; , CR LF; distinct by "
@@ -209,7 +209,10 @@ REGIONS = {"rcb-text-value": region_rcb_text}
 
 # characters that are special to *some* layer (BOM, Unicode line boundaries for str.splitlines, C0/C1 controls)
 SPECIALS = ["\ufeff", "\u2028", "\u2029", "\x85", "\x0b", "\x0c", "\x1c", "\x1d", "\x1e", "\x00", "\x7f", "\t", "\r",
-            "\ufffe", "\uffff", "\U0010ffff", "\u00a0", "\u200b"]
+            "\ufffe", "\uffff", "\U0010ffff", "\u00a0", "\u200b",
+            # strings that are not in Unicode normal form C (a codec must not normalise): decomposed accents, compatibility
+            # singletons, conjoining jamo, composition exclusions
+            "e\u0301", "u\u0308", "\u212b", "\u2126", "\u1100\u1161", "\u0958", "a\u0323\u0307", "\ufb01", "\u1e9b\u0323"]
 
 
 def _special_cases():
